@@ -42,6 +42,10 @@ CHECKS = {
   technique='property-based testing (Hypothesis): differential between restricted and full evaluations of the same model (sub-range, observation range, cutoff_grid=False), binned differential, and opacity-level bit-equality / bracketing predicates on own and foreign grids (cross-section and k-table layouts)',
   text='Generated worlds whose molecules sit on identical, nested, offset or independent native grids; spectra computed on a sub-range and on an observation range are compared point by point and bin by bin with the full native computation (licensed cut-off slack modelled), and Opacity.opacity is checked for unchanged own points and bracketed foreign points; exploration level.',
   note='Binning clause judged on native spacing <= 1/4 of the widest bin (narrower than the statement); cut-off slack e^-10 as the saturation test minimises over the computed wavenumbers.'),
+ 'C10': dict(
+  technique='property-based testing (Hypothesis) with validity predicates (non-negative, columns sum to one, fill ratios, per-profile range and length) and an independent recomputation of the mean molecular weight and of the active/inactive split; totals steered into valid / boundary / invalid classes by construction',
+  text='Generated fill lists (1-4 gases), trace gases of all five profile types, layer counts that are not multiples of ten, and availability of opacity data in cross-section or k-table mode; valid totals must give a proper mixture, totals above one must be rejected with InvalidChemistryException; exploration level.',
+  note='Atomic weights taken from the code (data), formula parsing and sums independent; boundary totals (within 1e-9 of one) accept either outcome.'),
 }
 
 NOT_APPLICABLE = {}
